@@ -18,6 +18,7 @@ import (
 	"runtime"
 	"sync"
 	"syscall"
+	"unsafe"
 
 	seccomp "github.com/elastic/go-seccomp-bpf"
 	"github.com/elastic/go-seccomp-bpf/arch"
@@ -196,6 +197,8 @@ func main() {
 		emit(map[string]any{"ev": "start", "pid": os.Getpid(), "goarch": goarch, "before": statusFields(syscall.Gettid())})
 		runProbes(c)
 		emit(map[string]any{"ev": "done"})
+	case "rawload":
+		rawload(readCase())
 	case "history":
 		history(readCase())
 	case "tsync":
@@ -205,4 +208,24 @@ func main() {
 	default:
 		fatal("unknown mode " + os.Args[1])
 	}
+}
+
+// rawload hands a raw program to seccomp(2) without going through the
+// library (calibration of the harness' kernel-verifier port).
+func rawload(c *Case) {
+	if goarch != "amd64" {
+		fatal("rawload is amd64 only")
+	}
+	runtime.LockOSThread()
+	prog := make([]syscall.SockFilter, len(c.Raw))
+	for i, q := range c.Raw {
+		prog[i] = syscall.SockFilter{Code: uint16(q[0]), Jt: uint8(q[1]), Jf: uint8(q[2]), K: q[3]}
+	}
+	fprog := syscall.SockFprog{Len: uint16(len(prog))}
+	if len(prog) > 0 {
+		fprog.Filter = &prog[0]
+	}
+	syscall.RawSyscall6(syscall.SYS_PRCTL, 38, 1, 0, 0, 0, 0)
+	_, _, e := syscall.RawSyscall(317, 1, 0, uintptr(unsafe.Pointer(&fprog)))
+	emit(map[string]any{"ev": "rawloaded", "errno": uint64(e), "len": len(prog)})
 }
